@@ -12,6 +12,8 @@ EXTENDS GenDoc
 
 NewNames == <<"renamed_1", "new name 2", "Renamed3", "r_4", "~u00e9~dit 5", "table", "x6">>
 NewTexts == <<"edited note", "it's edited", "two\nlines edited", "">>
+\* (an action may be assigned in any letter case: the attribute is a plain string)
+EditActions == Actions \o <<"CASCADE", "SET NULL", "No Action">>
 NewTypes == <<"bigint", "varchar(64)", "numeric(8, 3)", "uuid[]">>
 
 ToggleFlag(col, f) ==
@@ -108,7 +110,7 @@ ChooseEdit(sd, i, m) ==
     [] op = "ref_inline"   -> IF m.refs = <<>> THEN skip ELSE [op |-> op, r |-> Num(sd, K(50 + i, 0, 5), 1, Len(m.refs)), b |-> Coin(sd, K(50 + i, 0, 6), 50)]
     [] op = "ref_name"     -> IF m.refs = <<>> THEN skip ELSE [op |-> op, r |-> Num(sd, K(50 + i, 0, 5), 1, Len(m.refs)), v |-> IF Coin(sd, K(50 + i, 0, 6), 30) THEN "" ELSE fresh]
     [] op = "ref_actions"  -> IF m.refs = <<>> THEN skip
-                              ELSE [op |-> op, r |-> Num(sd, K(50 + i, 0, 5), 1, Len(m.refs)), u |-> Pick(sd, K(50 + i, 0, 6), Actions), d |-> Pick(sd, K(50 + i, 0, 7), Actions)]
+                              ELSE [op |-> op, r |-> Num(sd, K(50 + i, 0, 5), 1, Len(m.refs)), u |-> Pick(sd, K(50 + i, 0, 6), EditActions), d |-> Pick(sd, K(50 + i, 0, 7), EditActions)]
     [] op = "add_column"   -> [op |-> op, t |-> t,
                                col |-> [name |-> fresh, type |-> [k |-> "str", v |-> Pick(sd, K(50 + i, 0, 5), NewTypes)],
                                         pk |-> Coin(sd, K(50 + i, 0, 6), 30), unique |-> Coin(sd, K(50 + i, 0, 7), 30), notnull |-> FALSE, autoinc |-> FALSE,
